@@ -332,10 +332,13 @@ class StructureExpr:
         self.expression = expression
 
     def __call__(self, target, engine):
-        compiler = engine.parse(self.expression)
-        body = compiler.assign_value(target)
+        # The value is converted as for any insertion that is not
+        # escaped (a message object is offered for translation); the
+        # wrapper holds the resulting text.
+        compiler = engine.parse(self.expression, char_escape=())
+        body = compiler.assign_text(target)
         return body + template(
-            "target = wrapper(target)",
+            "if target is not None: target = wrapper(target)",
             target=target,
             wrapper=self.wrapper_class,
         )
